@@ -1068,8 +1068,13 @@ class Interp:
         kwargs: dict[str, Any] = {}
         for kw in e.keywords:
             if kw.arg is None:
-                kwargs.update(self.eval(kw.value, env))
+                more = self.eval(kw.value, env)
+                if any(k in kwargs for k in more):
+                    raise Raised("TypeError")  # got multiple values for a keyword argument
+                kwargs.update(more)
             else:
+                if kw.arg in kwargs:
+                    raise Raised("TypeError")
                 kwargs[kw.arg] = self.eval(kw.value, env)
         return args, kwargs
 
